@@ -1,10 +1,16 @@
-from ..rules.slots import MOLECULE, FRAGMENT, FRAG_NLA, FRAG_CHIC
+from ..rules.slots import MOLECULE, FRAGMENT, FRAG_NLA, FRAG_CHIC, BTM
 
 DUP_FIXED = """            for read in frag:
                 if read is not None:
                     read.is_duplicate = rc > 0
 """
 OVERLAYS = [
+    {'name': 'pre-fix F31: -umi_hamming_distance stored in molecule_class_args only', 'kind': 'break', 'rules': ['C06-R8'],
+     'edits': [(BTM, "        'read_group_format' : args.read_group_format,\n        'umi_hamming_distance': args.umi_hamming_distance\n", "        'read_group_format' : args.read_group_format\n")]},
+    {'name': 'assignment radius handed to the molecule classes', 'kind': 'break', 'rules': ['C06-R8'],
+     'edits': [(BTM, "        fragment_class_args['assignment_radius'] = args.assignment_radius\n", "        molecule_class_args['assignment_radius'] = args.assignment_radius\n")]},
+    {'name': 'UMI distance removed from the (unused) molecule arguments', 'kind': 'keep', 'rules': [],
+     'edits': [(BTM, "        'umi_hamming_distance': args.umi_hamming_distance,\n        'reference': reference\n", "        'reference': reference\n")]},
     {'name': 'pre-fix F8: duplicate bit only ever set', 'kind': 'break', 'rules': ['C06-R1'],
      'edits': [(MOLECULE, DUP_FIXED, "            if rc > 0:\n                for read in frag:\n                    if read is not None:\n                        read.is_duplicate = True\n")]},
     {'name': 'duplicate from rank > 1', 'kind': 'break', 'rules': ['C06-R1'],
